@@ -86,8 +86,17 @@ def load_kani_units():
     return units
 
 
+# Property dependencies: a property on the left is only true if the properties on the right are, so
+# its check also runs their units (DESIGN.md section 4.1):
+#   C01 (an independent decoder recovers the input) needs a well-formed stream (C02);
+#   C04 (frame-size fields == bytes emitted) and C09 (selection by reported size) need count_bits()
+#   to be the number of bits written (C08).
+IMPLIED = {"C01": ["C02"], "C04": ["C08"], "C09": ["C08"]}
+
+
 def select(units, prop, tier):
-    sel = [u for u in units if prop in u["props"]]
+    want = [prop] + IMPLIED.get(prop, [])
+    sel = [u for u in units if any(p in u["props"] for p in want)]
     if tier == "quick":
         sel = [u for u in sel if u["tier"] == "quick"]
     return sel
